@@ -65,13 +65,39 @@ def _body(fn):
     return [s for s in fn.body if not (isinstance(s, ast.Expr) and isinstance(s.value, ast.Constant))]
 
 
+def _inline_temporaries(body):
+    """`t1 = e1; t2 = e2; return f(t1, t2)`  ->  `return f(e1, e2)` when every temporary is a local bound once to a call / attribute / name /
+    constant expression and the statements before the last one are nothing but such bindings (evaluation order of the bound expressions
+    is kept only if each is used once and in binding order -- checked)."""
+    if not body or not all(isinstance(s, ast.Assign) and len(s.targets) == 1 and isinstance(s.targets[0], ast.Name) for s in body[:-1]):
+        return None
+    subst, order = {}, []
+    for s in body[:-1]:
+        if s.targets[0].id in subst:
+            return None
+        subst[s.targets[0].id] = s.value
+        order.append(s.targets[0].id)
+    last = body[-1]
+    used = [n.id for n in ast.walk(last) if isinstance(n, ast.Name) and n.id in subst]
+    if sorted(used) != sorted(order) or [u for u in used] != order:
+        return None
+
+    class S(ast.NodeTransformer):
+        def visit_Name(self, node):
+            return subst.get(node.id, node) if isinstance(node.ctx, ast.Load) else node
+    import copy
+    return ast.unparse(S().visit(copy.deepcopy(last)))
+
+
 def _expect(sources, mod, qual, want):
     m = sources.module(mod)
     fn = m.funcs.get(qual)
     if fn is None:
         return ['%s missing' % qual]
     got = '; '.join(ast.unparse(s) for s in _body(fn))
-    return [] if got == want else ['%s is %r, expected %r' % (qual, got, want)]
+    if got == want or _inline_temporaries(_body(fn)) == want:
+        return []
+    return ['%s is %r, expected %r' % (qual, got, want)]
 
 
 def signers_conform(sources, twin):
